@@ -15,7 +15,7 @@ pub const CHECK: Check = Check { id: "C03", level: "fault_enumeration", flavours
 
 const RULE: &str = "cases = (generated encrypted archive, alteration, read order): single-bit flip of every byte incl. the header \
 (scaled: every byte, bit index rotating; production: 6 positions per chunk + every header byte), chunk swap / duplicate / \
-delete, chunk spliced from a second archive built from the same program (other key), truncation at 5 places per chunk, \
+delete, a full chunk (or only its tag, with one ciphertext byte of the target altered) copied in place over its neighbour, chunk spliced from a second archive built from the same program (other key), truncation at 5 places per chunk, \
 header-field edits (zero / 0xff a field, swap wrapped keys, recipient count +-1, layer bits); then the normal reader opens \
 the altered bytes (every other time with the repair-only option failsafe_return_data_even_unauthenticated set on its configuration) and reads every listed file in a rotated order with varying buffer sizes, re-opening files. Oracle: open \
 may fail; otherwise every listed name is an original name and every byte returned by an Ok read equals the original byte at \
@@ -32,6 +32,9 @@ pub enum Alt {
     HeaderFill { off: usize, len: usize, val: u8 },
     SwapWrapped { i: usize, j: usize },
     CountDelta { d: i8 },
+    /// in place (the length and the position of the footer are kept): chunk `from` (with its tag) is copied over chunk
+    /// `to`; with `tag_only`, only its tag is, and one ciphertext byte of `to` is altered
+    CopyOver { from: usize, to: usize, tag_only: bool },
 }
 
 #[derive(Clone, Debug, Serialize, Deserialize)]
@@ -75,6 +78,13 @@ fn alterations(a: &Arch) -> Vec<Alt> {
         }
         if j + 2 < n {
             v.push(Alt::Chunk(Fault::Swap { i: j, j: n - 1 }));
+        }
+        // both chunks full: j + 1 is not the last one, or the last one happens to be full
+        if j + 1 < n && a.header_len + (j + 2) * CHUNK_TAG <= a.bytes.len() {
+            v.push(Alt::CopyOver { from: j, to: j + 1, tag_only: false });
+            v.push(Alt::CopyOver { from: j, to: j + 1, tag_only: true });
+            v.push(Alt::CopyOver { from: j + 1, to: j, tag_only: false });
+            v.push(Alt::CopyOver { from: j + 1, to: j, tag_only: true });
         }
     }
     // header fields: ephemeral key [9,41), count [41,49), wrapped keys 48 bytes each, nonce (last 8)
@@ -128,6 +138,17 @@ fn apply_alt(a: &Arch, other: &Arch, alt: &Alt) -> (Vec<u8>, bool) {
             let (pi, pj) = (49 + 48 * i, 49 + 48 * j);
             for k in 0..48 {
                 b.swap(pi + k, pj + k);
+            }
+            (b, true)
+        }
+        Alt::CopyOver { from, to, tag_only } => {
+            let mut b = a.bytes.clone();
+            let (sf, st) = (a.header_len + from * CHUNK_TAG, a.header_len + to * CHUNK_TAG);
+            if *tag_only {
+                b.copy_within(sf + CHUNK_TAG - TAG..sf + CHUNK_TAG, st + CHUNK_TAG - TAG);
+                b[st + (from * 7 + 3) % (CHUNK_TAG - TAG)] ^= 0x04;
+            } else {
+                b.copy_within(sf..sf + CHUNK_TAG, st);
             }
             (b, true)
         }
